@@ -846,3 +846,53 @@ theorem ed_table_of_entry (env : NsfEnv α) (t : NsfTables) (pre post : List EDT
 end
 
 end PtLoad
+
+/-! ## with distinct keys every atom owns the record of its row -/
+namespace PtLoad
+
+section
+variable {α : Type} [Add α] [Sub α] [Mul α] [Div α] [Neg α] [OfNat α 0] [NatCast α] [IntCast α]
+  [Transc α]
+
+def nsfKeyOf (r : NsfRow) : Nat × Nat := (r.z, r.a)
+
+theorem split_at_index (rows : List NsfRow) (i : Nat) (r : NsfRow) (h : rows[i]? = some r) :
+    rows = rows.take i ++ r :: rows.drop (i + 1) ∧ (rows.take i).length = i := by
+  obtain ⟨hi, hr⟩ := List.getElem?_eq_some_iff.mp h
+  refine ⟨?_, by simp [List.length_take]; omega⟩
+  rw [← hr, ← List.drop_eq_getElem_cons hi, List.take_append_drop]
+
+/-- in a table with distinct keys, no later row has the key of row `i` -/
+theorem later_keys_differ (rows : List NsfRow) (hnd : (rows.map nsfKeyOf).Nodup) (i : Nat) (r : NsfRow)
+    (h : rows[i]? = some r) : ∀ x ∈ rows.drop (i + 1), nsfKeyOf x ≠ nsfKeyOf r := by
+  obtain ⟨hsplit, _⟩ := split_at_index rows i r h
+  intro x hx e
+  rw [hsplit, List.map_append, List.map_cons] at hnd
+  have := (List.nodup_append.mp hnd).2.1
+  rw [List.nodup_cons] at this
+  exact this.1 (List.mem_map.mpr ⟨x, hx, e⟩)
+
+/-- **every atom owns its row**: with distinct keys the element or isotope a row names points
+    to the record built from that row -/
+theorem atom_owns_row (env : NsfEnv α) (t : NsfTables) (hnd : (t.rows.map nsfKeyOf).Nodup)
+    (i : Nat) (r : NsfRow) (h : t.rows[i]? = some r) :
+    (if r.a = 0 then (Nsf.loadRows env t).elId r.z else (Nsf.loadRows env t).isoId r.z r.a) = i + 1 := by
+  obtain ⟨hsplit, hlen⟩ := split_at_index t.rows i r h
+  have hlater := later_keys_differ t.rows hnd i r h
+  have hb := later_benign env t
+  rw [loadRows_eq]
+  split
+  · rename_i ha
+    rw [hb.elId, hsplit,
+      fold_elId_elrow _ _ (t.rows.take i) (t.rows.drop (i + 1)) r _ Nat.one_pos ha
+        (fun x hx hz hxa => hlater x hx (by simp [nsfKeyOf, hz, hxa, ha])), hlen]
+    simp [NsfState.fresh]; omega
+  · rename_i ha
+    rw [hb.isoId, hsplit,
+      fold_isoId _ _ (t.rows.take i) (t.rows.drop (i + 1)) r _ ha
+        (fun x hx => Or.inr (fun e => hlater x hx (by simpa [nsfKeyOf] using e))), hlen]
+    simp [NsfState.fresh]; omega
+
+end
+
+end PtLoad
